@@ -40,9 +40,39 @@ IMPORTS = ("From Coq Require Import ZArith List.\nFrom QP Require Import Zw Gate
            "From QPM Require Import Pauli Conj.\nFrom QPG Require Import conjtab.\nOpen Scope Z_scope.")
 
 
+def warm_up():
+    """The conjugation tables and the Clifford name set are module-level objects shared with the transpilers: use those
+    features first, in this process, as an application would (a feature that updates a shared table in place then shows
+    in the checks below)."""
+    import quri_parts.circuit.transpile as T
+    from quri_parts.circuit import QuantumCircuit as QC
+    from quri_parts.circuit import gates as G
+    c = QC(3)
+    for g in (G.H(0), G.SqrtY(1), G.CNOT(0, 1), G.T(2), G.RZ(1, 0.3), G.SWAP(1, 2), G.CZ(0, 2), G.Sdag(0)):
+        c.add_gate(g)
+    made = 0
+    for name in sorted(T.__all__):
+        obj = getattr(T, name)
+        if not (isinstance(obj, type) or callable(obj)) or not name.endswith("Transpiler"):
+            continue
+        for args in ((), (["H", "S", "CNOT", "RZ"],), (["X", "SqrtX", "CNOT", "RZ"],), (["H", "S"],), (["S", "SqrtX", "Z"],)):
+            try:
+                t = obj(*args)
+                made += 1
+                try:
+                    t(c)
+                except Exception:  # noqa: BLE001 - a transpiler may reject the circuit
+                    pass
+                break
+            except Exception:  # noqa: BLE001 - wrong constructor arguments for this class
+                continue
+    return made
+
+
 def main():
     a = O.std_args().parse_args()
     rng = random.Random(a.seed * 7907 + 3)
+    warm_up()
     res = O.Result("random Clifford gate kind x placement (control<>target, registers up to 12) x Pauli string "
                    "(0..6 factors incl. spectators, random enumeration order); distinct = (gate, label)")
     n_cases = 1200 if a.tier == "quick" else 6000
